@@ -18,7 +18,7 @@ def gen_knobs(rng: random.Random) -> dict:
     k: dict = {}
     # swarm: each knob is left at its default in a good share of the runs
     if rng.random() < 0.5:
-        k["rx_type"] = pick(rng, ["bytes", "bytearray", "memoryview"])
+        k["rx_type"] = pick(rng, ["bytes", "bytearray", "memoryview", "bytearray_reused", "memoryview_reused", "memoryview_slice"])
     if rng.random() < 0.4:
         k["handler_order"] = "lifo"
     if rng.random() < 0.2:
@@ -159,6 +159,36 @@ def gen_session(rng: random.Random, noise_p: float = 0.35, max_addrs: int = 3, l
     return scn
 
 
+def make_rejecting(scn: dict, rng: random.Random) -> str:
+    """Turn a baseline into one whose connect attempt is refused by a verdict (name, version, password, key, framing):
+    the library closes on its own, and an injected cause may fall into the very turn in which it does."""
+    client, device = scn["client"], scn["device"]
+    noise = "noise_psk" in client
+    kinds = ["name", "name", "major", "password", "framing"] + (["key", "name"] if noise else [])
+    kind = pick(rng, kinds)
+    if kind == "name":
+        client["expected_name"] = pick(rng, ["other", "simdev2", "Simdev"])
+    elif kind == "major":
+        device.setdefault("hello", {})["api_version_major"] = pick(rng, [0, 2, 3])
+    elif kind == "password":
+        device["invalid_password"] = True
+        for a in scn["actors"]:
+            for st in a["steps"]:
+                if st["do"] in ("connect", "finish"):
+                    st["login"] = True
+    elif kind == "key":
+        device["psk"] = base64.b64encode(bytes(rng.getrandbits(8) for _ in range(32))).decode()
+    else:
+        if noise:
+            device.pop("transport", None)
+            device.pop("psk", None)
+        else:
+            device["transport"] = "noise"
+            device["psk"] = base64.b64encode(bytes(rng.getrandbits(8) for _ in range(32))).decode()
+            device["eph_seed"] = "%08x" % rng.getrandbits(32)
+    return kind
+
+
 # ----------------------------------------------------------------------------------------
 # close causes
 # ----------------------------------------------------------------------------------------
@@ -174,6 +204,7 @@ CAUSES = [
     "fin",
     "rst",
     "eio",
+    "etimedout",
     "garbage",
     "dev_disconnect",
     "dev_disconnect_trailing",
